@@ -143,3 +143,7 @@ package utils
 //@ trusted "pkg/errors: returns a non-nil error"
 //@ pure
 //@ ensures result != nil
+
+//@ func time.Now
+//@ trusted "stdlib: reads the clock, writes no program state"
+//@ pure
